@@ -17,10 +17,22 @@ if [ $need_repo_bin = 1 ]; then
   cargo build --offline --manifest-path $T/repo/Cargo.toml -p mlar -p mla-bindings-c --target-dir $T/target_repo > $T/build_repo.log 2>&1 || { tail -20 $T/build_repo.log; echo "BUILD FAILED (mlar)"; rm -rf $T; exit 2; }
   export VERIF_MLAR=$T/target_repo/debug/mlar VERIF_LIBMLA=$T/target_repo/debug/libmla.so
 fi
-for fl in scaled prod; do
+# The dependency cache is shared between trials. cargo rebuilds the local crates for every trial (their absolute path
+# is part of the fingerprint - checked: an identical copy under another path is recompiled), but the final binary has
+# one name in the shared directory, so build + copy run under a lock (trials may run side by side); the sources are
+# touched first and the build log must show mla being compiled, as a guard against linking another trial's mla.
+mkdir -p $TD
+build_fls="prod"
+for c in "$@"; do case $c in C07|C15|C16|C17|C18|C19|C20) ;; *) build_fls="scaled prod";; esac; done
+for fl in $build_fls; do
   feat=""; [ $fl = scaled ] && feat="--features scaled"
-  CARGO_TARGET_DIR=$TD/$fl cargo build --profile verif $feat --manifest-path $T/harness/Cargo.toml > $T/build_$fl.log 2>&1 || { grep -E "^error" -A8 $T/build_$fl.log | head -30; echo "BUILD FAILED ($fl)"; rm -rf $T; exit 2; }
-  cp $TD/$fl/verif/vcheck $T/vcheck-$fl
+  (
+    flock 9
+    find $T/repo/mla $T/repo/curve25519-parser $T/harness/src $T/harness/Cargo.toml \( -name '*.rs' -o -name Cargo.toml \) -exec touch {} +
+    CARGO_TARGET_DIR=$TD/$fl cargo build --profile verif $feat --manifest-path $T/harness/Cargo.toml > $T/build_$fl.log 2>&1 || exit 3
+    grep -q "Compiling mla " $T/build_$fl.log || { echo "mla was not rebuilt"; exit 3; }
+    cp $TD/$fl/verif/vcheck $T/vcheck-$fl
+  ) 9> $TD/.lock || { grep -E "^error" -A8 $T/build_$fl.log | head -30; echo "BUILD FAILED ($fl)"; rm -rf $T; exit 2; }
 done
 for c in "$@"; do
   fls="scaled prod"
